@@ -26,8 +26,9 @@ inductive Cond | jne | jeq | jnc | jc | jn | jge | jl | jmp
 /-- a source operand as the CPU sees it -/
 inductive Src
   | reg (r : BitVec 4)                      -- Rn (register mode); R3 never appears here: it reads as the constant 0
-  | indexed (r : BitVec 4) (x : BitVec 16)  -- X(Rn); r = 0: symbolic (X is relative to the address of the word X
-                                            -- itself), r = 2: absolute (&X, SR reads as 0)
+  | indexed (r : BitVec 4) (x : BitVec 16)  -- X(Rn), n ∉ {0, 2, 3}: the operand is at Rn + X
+  | symbolic (target : BitVec 16)           -- ADDR = X(PC): the operand is at (address of the word X) + X
+  | absolute (a : BitVec 16)                -- &ADDR = X(SR) with SR read as 0
   | indirect (r : BitVec 4)                 -- @Rn
   | indirectInc (r : BitVec 4)              -- @Rn+
   | imm (v : BitVec 16)                     -- #N: @PC+ followed by the word N, or a constant generator
@@ -36,14 +37,16 @@ inductive Src
 
 inductive Dst
   | reg (r : BitVec 4)                      -- Rm
-  | indexed (r : BitVec 4) (x : BitVec 16)  -- X(Rm), symbolic (r = 0), absolute (r = 2)
+  | indexed (r : BitVec 4) (x : BitVec 16)  -- X(Rm)
+  | symbolic (target : BitVec 16)           -- ADDR
+  | absolute (a : BitVec 16)                -- &ADDR
   deriving DecidableEq, Repr, Inhabited
 
 inductive Instr
   | two (op : Op2) (bw : Bool) (s : Src) (d : Dst)
   | one (op : Op1) (bw : Bool) (s : Src)
   | reti
-  | jump (c : Cond) (off : BitVec 10)       -- PC ← PC + 2 + 2·sext(off)
+  | jump (c : Cond) (target : BitVec 16)    -- PC ← target = address of the jump + 2 + 2·sext(offset field)
   deriving DecidableEq, Repr, Inhabited
 
 def op2OfNibble (n : BitVec 4) : Option Op2 :=
@@ -83,31 +86,38 @@ def srcHasExt (reg : BitVec 4) (as : BitVec 2) : Bool :=
 /-- a byte instruction uses the low byte of an immediate / generated constant -/
 def immOf (bw : Bool) (v : BitVec 16) : BitVec 16 := if bw then v &&& 0xff else v
 
-/-- addressing-mode table with the constant generators CG1 (R2) and CG2 (R3) applied -/
-def srcOperand (bw : Bool) (reg : BitVec 4) (as : BitVec 2) (ext : BitVec 16) : Src :=
+/-- addressing-mode table with the constant generators CG1 (R2) and CG2 (R3) applied; `ea` is the address of the
+    extension word `ext` -/
+def srcOperand (bw : Bool) (reg : BitVec 4) (as : BitVec 2) (ext ea : BitVec 16) : Src :=
   if reg = 3 then
     .imm (immOf bw (if as = 0 then 0 else if as = 1 then 1 else if as = 2 then 2 else 0xffff))
   else if reg = 2 ∧ as = 2 then .imm (immOf bw 4)
   else if reg = 2 ∧ as = 3 then .imm (immOf bw 8)
   else if as = 0 then .reg reg
-  else if as = 1 then .indexed reg ext
+  else if as = 1 then (if reg = 0 then .symbolic (ea + ext) else if reg = 2 then .absolute ext else .indexed reg ext)
   else if as = 2 then .indirect reg
   else if reg = 0 then .imm (immOf bw ext)
   else .indirectInc reg
 
 /-- destination: Ad = 0 register mode, Ad = 1 indexed / symbolic / absolute, always with an extension word -/
-def dstOperand (reg : BitVec 4) (ad : Bool) (ext : BitVec 16) : Dst :=
-  if ad then .indexed reg ext else .reg reg
+def dstOperand (reg : BitVec 4) (ad : Bool) (ext ea : BitVec 16) : Dst :=
+  if ad then (if reg = 0 then .symbolic (ea + ext) else if reg = 2 then .absolute ext else .indexed reg ext)
+  else .reg reg
 
-/-- The architecture's decoder: the instruction at the head of `ws` and the number of words it occupies;
-    `none` when the head is not an instruction of the 16-bit core or extension words are missing. -/
-def decode (ws : List (BitVec 16)) : Option (Instr × Nat) :=
+/-- the jump target of format III: address of the jump + 2 + 2·sext(offset), modulo 2^16 -/
+def jumpTarget (addr : BitVec 16) (off : BitVec 10) : BitVec 16 :=
+  addr + 2 + ((off.signExtend 16) <<< 1)
+
+/-- The architecture's decoder: the instruction at the head of `ws` (which lies at address `addr`) and the
+    number of words it occupies; `none` when the head is not an instruction of the 16-bit core or extension words
+    are missing. -/
+def decode (addr : BitVec 16) (ws : List (BitVec 16)) : Option (Instr × Nat) :=
   match ws with
   | [] => none
   | w :: rest =>
     if w &&& 0xe000 = 0x2000 then
       -- format III: 001 C C C offset(10)
-      some (.jump (condOfField (w.extractLsb' 10 3)) (w.extractLsb' 0 10), 1)
+      some (.jump (condOfField (w.extractLsb' 10 3)) (jumpTarget addr (w.extractLsb' 0 10)), 1)
     else if w &&& 0xfc00 = 0x1000 then
       -- format II: 000100 opcode(3) B/W As(2) reg(4)
       if w = 0x1300 then some (.reti, 1)
@@ -121,9 +131,9 @@ def decode (ws : List (BitVec 16)) : Option (Instr × Nat) :=
           if op.wordOnly && bw then none
           else if srcHasExt reg as then
             match rest with
-            | e :: _ => some (.one op bw (srcOperand bw reg as e), 2)
+            | e :: _ => some (.one op bw (srcOperand bw reg as e (addr + 2)), 2)
             | [] => none
-          else some (.one op bw (srcOperand bw reg as 0), 1)
+          else some (.one op bw (srcOperand bw reg as 0 0), 1)
     else
       -- format I: opcode(4) S-reg(4) Ad B/W As(2) D-reg(4)
       match op2OfNibble (w.extractLsb' 12 4) with
@@ -135,10 +145,11 @@ def decode (ws : List (BitVec 16)) : Option (Instr × Nat) :=
         let as : BitVec 2 := w.extractLsb' 4 2
         let dreg : BitVec 4 := w.extractLsb' 0 4
         match srcHasExt sreg as, ad, rest with
-        | false, false, _ => some (.two op bw (srcOperand bw sreg as 0) (.reg dreg), 1)
-        | true, false, e :: _ => some (.two op bw (srcOperand bw sreg as e) (.reg dreg), 2)
-        | false, true, e :: _ => some (.two op bw (srcOperand bw sreg as 0) (.indexed dreg e), 2)
-        | true, true, e1 :: e2 :: _ => some (.two op bw (srcOperand bw sreg as e1) (.indexed dreg e2), 3)
+        | false, false, _ => some (.two op bw (srcOperand bw sreg as 0 0) (.reg dreg), 1)
+        | true, false, e :: _ => some (.two op bw (srcOperand bw sreg as e (addr + 2)) (.reg dreg), 2)
+        | false, true, e :: _ => some (.two op bw (srcOperand bw sreg as 0 0) (dstOperand dreg true e (addr + 2)), 2)
+        | true, true, e1 :: e2 :: _ =>
+          some (.two op bw (srcOperand bw sreg as e1 (addr + 2)) (dstOperand dreg true e2 (addr + 4)), 3)
         | _, _, _ => none
 
 /-- number of words of the instruction that starts with `w` (depends on the first word only) -/
@@ -150,15 +161,12 @@ def words (w : BitVec 16) : Nat :=
   else 1 + (if srcHasExt (w.extractLsb' 8 4) (w.extractLsb' 4 2) then 1 else 0) +
     (if w.extractLsb' 7 1 = 1 then 1 else 0)
 
-/-- the jump target of format III: address of the jump + 2 + 2·sext(offset), modulo 2^16 -/
-def jumpTarget (addr : BitVec 16) (off : BitVec 10) : BitVec 16 :=
-  addr + 2 + ((off.signExtend 16) <<< 1)
-
-example : decode [0x4035, 0x1234] = some (.two .mov false (.imm 0x1234) (.reg 5), 2) := by decide
-example : decode [0x4315] = some (.two .mov false (.imm 1) (.reg 5), 1) := by decide
-example : decode [0x4035, 0x0001] = some (.two .mov false (.imm 1) (.reg 5), 2) := by decide
-example : decode [0x43f2, 0x0200] = some (.two .mov true (.imm 0xff) (.indexed 2 0x0200), 2) := by decide
-example : decode [0x1300] = some (.reti, 1) := by decide
-example : decode [0x3fff] = some (.jump .jmp 0x3ff, 1) := by decide
+example : decode 0x1000 [0x4035, 0x1234] = some (.two .mov false (.imm 0x1234) (.reg 5), 2) := by decide
+example : decode 0x1000 [0x4315] = some (.two .mov false (.imm 1) (.reg 5), 1) := by decide
+example : decode 0x1000 [0x4035, 0x0001] = some (.two .mov false (.imm 1) (.reg 5), 2) := by decide
+example : decode 0x1000 [0x43f2, 0x0200] = some (.two .mov true (.imm 0xff) (.absolute 0x0200), 2) := by decide
+example : decode 0x1000 [0x1300] = some (.reti, 1) := by decide
+example : decode 0x1000 [0x3fff] = some (.jump .jmp 0x1000, 1) := by decide
+example : decode 0x1000 [0x4090, 0x0232, 0x0232] = some (.two .mov false (.symbolic 0x1234) (.symbolic 0x1236), 3) := by decide
 
 end NakenVerif.Msp430.Arch
